@@ -16,6 +16,7 @@ import EPV.Lemmas.StringsNormalize
 import EPV.Lemmas.StringsUri
 import EPV.Lemmas.StringsCase
 import EPV.Lemmas.StringsJoin
+import EPV.Lemmas.StringsCollation
 namespace EPV.C09
 open EPV.FOStrings (Str Num Err)
 open EPV
@@ -412,5 +413,61 @@ theorem fn_string_join_eq_spec (items : List Str) (sep : Option Str) :
   cases sep <;>
     simp [Strings.fnStringJoin, FOStrings.fnStringJoin, FOStrings.required, string_join_eq_spec,
       bind, Except.bind, pure, Except.pure]
+
+
+/-! ## the collation-aware 2.0+ functions (`CollationManager`): code-point and HTML ASCII case-insensitive -/
+
+open EPV.FOStrings (Collation) in
+/-- `html_ascii_strxfrm` (a `str.translate` table for A–Z) is F&O 3.1 §5.3.4's
+`fn:translate($s, 'ABC…Z', 'abc…z')`; for the code-point collation the key is the string itself. -/
+theorem collation_key_eq_spec (col : Collation) (s : Str) :
+    Strings.strxfrm col s = FOStrings.collKey col s :=
+  Strings.strxfrm_eq_key col s
+
+open EPV.FOStrings (Collation) in
+/-- `compare`, `contains`, `starts-with`, `ends-with`, `substring-before`, `substring-after` with a
+collation argument are the code-point functions on the collation keys, returning parts of the
+*original* first argument. -/
+theorem collation_functions_eq_spec (col : Collation) (s t : Str) :
+    Strings.compareC col s t = FOStrings.compareC col s t ∧
+    Strings.containsC col s t = FOStrings.containsC col s t ∧
+    Strings.startsWithC col s t = FOStrings.startsWithC col s t ∧
+    Strings.endsWithC col s t = FOStrings.endsWithC col s t ∧
+    Strings.substringBeforeC col s t = FOStrings.substringBeforeC col s t ∧
+    Strings.substringAfterC col s t = FOStrings.substringAfterC col s t := by
+  refine ⟨Strings.compareC_eq_spec col s t, Strings.containsC_eq_spec col s t, ?_, ?_,
+    Strings.substringBeforeC_eq_spec col s t, Strings.substringAfterC_eq_spec col s t⟩
+  · unfold Strings.startsWithC FOStrings.startsWithC
+    rw [Strings.strxfrm_eq_key, Strings.strxfrm_eq_key]
+    exact starts_with_eq_spec _ _
+  · unfold Strings.endsWithC FOStrings.endsWithC
+    rw [Strings.strxfrm_eq_key, Strings.strxfrm_eq_key]
+    exact ends_with_eq_spec _ _
+
+open EPV.FOStrings (Collation) in
+/-- `before_after_concat` under a collation: when `contains(s,t,col)`, `s` splits as
+`substring-before ++ m ++ substring-after` where the matched factor `m` has the length of `t` and is
+equal to `t` under the collation (for the code-point collation: `m = t`). -/
+theorem before_after_concat_collation (col : Collation) (s t : Str)
+    (h : Strings.containsC col s t = true) :
+    ∃ m, m.length = t.length ∧ Strings.strxfrm col m = Strings.strxfrm col t ∧
+      Strings.substringBeforeC col s t ++ m ++ Strings.substringAfterC col s t = s :=
+  Strings.before_after_concat_C col s t h
+
+/-- with the default (code-point) collation the 2.0+ functions are the 1.0 ones -/
+theorem collation_codepoint_is_plain (s t : Str) :
+    Strings.containsC .codepoint s t = Strings.contains s t ∧
+    Strings.startsWithC .codepoint s t = Strings.startsWith s t ∧
+    Strings.endsWithC .codepoint s t = Strings.endsWith s t ∧
+    Strings.substringBeforeC .codepoint s t = Strings.substringBefore s t ∧
+    Strings.substringAfterC .codepoint s t = Strings.substringAfter s t ∧
+    Strings.compareC .codepoint s t = Strings.compare s t :=
+  ⟨rfl, rfl, rfl, rfl, rfl, rfl⟩
+
+/-- test (literals): only A–Z fold (F09f): `ß` ≠ `ss`, `é` ≠ `É`, and the offset found in the key is
+valid in the original string -/
+example : Strings.compareC .htmlAscii [0xDF] [115, 115] = 1 ∧ Strings.compareC .htmlAscii [97] [65] = 0 ∧
+    Strings.compareC .htmlAscii [0xE9] [0xC9] = 1 ∧
+    Strings.substringBeforeC .htmlAscii [0xDF, 120, 121] [89] = [0xDF, 120] := by decide
 
 end EPV.C09
